@@ -118,6 +118,10 @@ def unit_lock_discipline(ctx):
     ctx.oblige("panoptica_aggregator[trace]/no-deadlock(lock acquisition order is acyclic; no lock is re-acquired while held; every acquisition is a with-block)", [],
                z3.BoolVal(not cyc and not any(e[0] == "self-deadlock" for e in evs) and sum(1 for e in evs if e[0] == "acquire") == sum(1 for e in evs if e[0] == "release")), func=fn,
                info={"order": str(sorted(order))})
+    kinds = getattr(eng, "lock_kinds", {})
+    used = LB | LO
+    ctx.oblige("panoptica_aggregator/locks-are-process-shared(the locks protecting buffer and output are multiprocessing locks, shared with forked workers)", [],
+               z3.BoolVal(bool(used) and all(kinds.get(l) == "process-shared" for l in used)), func=PA + "<module>", replay="c16.fork", info={"structural": True, "kinds": str(kinds)})
     starts = getattr(eng, "module_events", [])
     ctx.oblige("panoptica_aggregator/fork-start-method(module-level locks are shared with forked workers)", [],
                z3.BoolVal(any(e[0] == "set_start_method" and e[1] == "fork" for e in starts)), func=PA + "<module>")
